@@ -66,6 +66,53 @@ type c21Case struct {
 	pendingAt    int  // block index announcing an authority change, -1 none
 	pendingEff   uint
 	msgs         []c21Msg
+	// authority set of this round when it is not the initial one (keys 0..n-1):
+	// key numbers of the current set (n = len(keys), the service is key 0 and a
+	// member of every set), key numbers that were authorities of an earlier set
+	// of this Service and are not in the current one, and the round number when
+	// it is not headRound+1 (first round of a new set = 1)
+	keys   []int
+	former []int
+	round  uint64
+}
+
+// r is the number of the round this case describes.
+func (c *c21Case) r() uint64 {
+	if c.round != 0 {
+		return c.round
+	}
+	return c.headRound + 1
+}
+
+// others returns the key numbers of the current authorities other than the
+// service (key 0), in set order.
+func (c *c21Case) others() []int {
+	var out []int
+	if c.keys == nil {
+		for k := 1; k < c.n; k++ {
+			out = append(out, k)
+		}
+		return out
+	}
+	for _, k := range c.keys {
+		if k != 0 {
+			out = append(out, k)
+		}
+	}
+	return out
+}
+
+// isAuth: key is an authority of the current set.
+func (c *c21Case) isAuth(key int) bool {
+	if c.keys == nil {
+		return key >= 0 && key < c.n
+	}
+	for _, k := range c.keys {
+		if k == key {
+			return true
+		}
+	}
+	return false
 }
 
 type c21Result struct {
@@ -84,6 +131,9 @@ func c21Describe(c *c21Case, tree *vTree) string {
 	var sb strings.Builder
 	fmt.Fprintf(&sb, "n=%d tree=%s head=%d@r%d set=%d best=%d ownPV=%d ownPC=%v pending=%d@%d:", c.n, tree.describe(), c.head, c.headRound,
 		c.setID, c.best, c.ownPrevote, c.ownPrecommit, c.pendingAt, c.pendingEff)
+	if c.keys != nil {
+		fmt.Fprintf(&sb, " round=%d keys=%v former=%v:", c.r(), c.keys, c.former)
+	}
 	for _, m := range c.msgs {
 		bi := -1
 		if i, ok := tree.index[m.vote.Hash]; ok {
@@ -171,7 +221,7 @@ func c21RunRound(env *vEnv, tree *vTree, c *c21Case) (*c21Result, error) {
 	if err := s.initiateRound(); err != nil {
 		return nil, fmt.Errorf("initiateRound: %w", err)
 	}
-	r := c.headRound + 1
+	r := c.r()
 	if s.state.round != r || s.state.setID != c.setID || s.head.Hash() != tree.hashes[c.head] {
 		return nil, fmt.Errorf("harness: round %d set %d head %s after initiateRound, expected %d %d %s",
 			s.state.round, s.state.setID, s.head.Hash(), r, c.setID, tree.hashes[c.head])
@@ -212,7 +262,7 @@ func c21RunRound(env *vEnv, tree *vTree, c *c21Case) (*c21Result, error) {
 	for i, m := range c.msgs {
 		pub := vPub(m.key)
 		blk, known := tree.index[m.vote.Hash]
-		valid := m.key >= 1 && m.key < c.n &&
+		valid := m.key != 0 && c.isAuth(m.key) &&
 			stded.Verify(stded.PublicKey(pub[:]), vFullVotePayload(m.stage, m.vote, m.round, m.setID), m.sig[:]) &&
 			m.round == r && m.setID == c.setID &&
 			known && uint(m.vote.Number) == tree.number[blk] && tree.isAncestorOrEqual(c.head, blk)
@@ -422,7 +472,8 @@ func c21Gen(t *rapid.T) *c21Case {
 // change, messages) for the round that follows c.headRound with finalised
 // head c.head.
 func c21GenRound(t *rapid.T, tree *vTree, c *c21Case) {
-	r := c.headRound + 1
+	r := c.r()
+	others := c.others()
 	sub := tree.subtree(c.head)
 	// best block: a deepest descendant of the head
 	var deepest []int
@@ -525,6 +576,11 @@ func c21GenRound(t *rapid.T, tree *vTree, c *c21Case) {
 	}
 	badKinds := []string{"garbageSig", "sigOtherVote", "sigOtherStage", "sigRound", "sigSet", "nonAuth", "unknownBlock", "wrongNumber", "wrongNumber",
 		"notDescending", "notDescending", "msgRoundAhead", "msgRoundBehind", "msgSet"}
+	if len(c.former) > 0 {
+		// after an authority set change: correctly signed votes (current round and
+		// set id) of keys that were authorities of an earlier set only
+		badKinds = append(badKinds, "formerAuth", "formerAuth", "formerAuth", "formerAuth")
+	}
 	nm := rapid.IntRange(0, 2*c.n+4).Draw(t, "messages")
 	if rapid.IntRange(0, 3).Draw(t, "manyMessages") > 0 {
 		nm = c.n - 1 + rapid.IntRange(0, c.n+5).Draw(t, "extraMessages")
@@ -542,7 +598,7 @@ func c21GenRound(t *rapid.T, tree *vTree, c *c21Case) {
 			m.kind = "valid-again"
 		}
 		if c.n >= 2 {
-			m.key = rapid.IntRange(1, c.n-1).Draw(t, "signer")
+			m.key = others[rapid.IntRange(1, c.n-1).Draw(t, "signer")-1]
 		} else {
 			m.key = 100
 			if m.kind != "nonAuth" {
@@ -575,6 +631,9 @@ func c21GenRound(t *rapid.T, tree *vTree, c *c21Case) {
 			signed.setID = c.setID + 1
 		case "nonAuth":
 			m.key = 100 + rapid.IntRange(0, 2).Draw(t, "outsider")
+			signed.key = m.key
+		case "formerAuth":
+			m.key = c.former[rapid.IntRange(0, len(c.former)-1).Draw(t, "formerSigner")]
 			signed.key = m.key
 		case "unknownBlock":
 			m.vote.Hash = common.Hash{0xee, byte(i)}
@@ -644,7 +703,7 @@ func TestC21Round(t *testing.T) {
 // c21Valid builds a correctly signed message of authority key for block blk
 // in round headRound+1.
 func c21Valid(c *c21Case, tree *vTree, kind string, key int, stage Subround, v Vote) c21Msg {
-	r := c.headRound + 1
+	r := c.r()
 	return c21Msg{kind: kind, key: key, stage: stage, vote: v, round: r, setID: c.setID,
 		sig: vSignVote(key, stage, v, r, c.setID)}
 }
@@ -706,7 +765,9 @@ const c21MultiRule = "2-3 consecutive synchronous rounds on ONE Service (initiat
 	"earlier rounds get extra prevote- and precommit-stage equivocators, later rounds are mostly 'tight': exactly floor(2n/3) or floor(2n/3)+1 genuine prevotes and precommits on one block, " +
 	"preferably cast by authorities that equivocated in the round before, plus verbatim replays of the previous round's messages; per round the TestC21Round oracle over the votes of that round only, " +
 	"and the first valid vote of an authority in a stage of a round must be accepted and recorded. " +
-	"Non-trivial = an authority equivocated in an earlier round and a later round had a block with >2/3 prevotes; distinct by the per-round descriptions"
+	"In about a third of the cases the authority set changes between two rounds (grandpa state publishes set id+1: same keys / smaller / larger / overlapping / all others replaced, applied by the next initiateRound -> updateAuthorities, " +
+	"round numbering restarts at 1); afterwards continuing, newly added and FORMER authorities vote, correctly signed for the new round and set id; validity, acceptance and thresholds are judged against the current set. " +
+	"Non-trivial = an authority equivocated in an earlier round and a later round had a block with >2/3 prevotes, or the set changed after a delivered vote and a former or new authority voted afterwards; distinct by the per-round descriptions"
 
 // c21Deepest returns the deepest blocks of the subtree of head.
 func c21Deepest(tree *vTree, head int) []int {
@@ -772,12 +833,12 @@ func c21GenTight(t *rapid.T, tree *vTree, c *c21Case, prevPV, prevPC []int, prev
 		}
 		isPref := map[int]bool{}
 		for _, k := range pref {
-			if k >= 1 && k < c.n {
+			if k != 0 && c.isAuth(k) {
 				isPref[k] = true
 				first = append(first, k)
 			}
 		}
-		for k := 1; k < c.n; k++ {
+		for _, k := range c.others() {
 			if !isPref[k] {
 				rest = append(rest, k)
 			}
@@ -837,7 +898,7 @@ func c21AddEquivocations(t *rapid.T, tree *vTree, c *c21Case, count int) {
 		if rapid.IntRange(0, 2).Draw(t, "eqStage") > 0 {
 			stage = precommit
 		}
-		key := rapid.IntRange(1, c.n-1).Draw(t, "eqSigner")
+		key := c.others()[rapid.IntRange(1, c.n-1).Draw(t, "eqSigner")-1]
 		b1 := sub[rapid.IntRange(0, len(sub)-1).Draw(t, "eqBlk1")]
 		b2 := sub[rapid.IntRange(0, len(sub)-1).Draw(t, "eqBlk2")]
 		if b1 == b2 {
@@ -849,6 +910,133 @@ func c21AddEquivocations(t *rapid.T, tree *vTree, c *c21Case, count int) {
 			c.msgs = append(c.msgs[:pos], append([]c21Msg{m}, c.msgs[pos:]...)...)
 		}
 	}
+}
+
+// c21AddFormerVotes appends count votes of former authorities (keys of an
+// earlier authority set of this Service that are not in the current one),
+// correctly signed for the current round and set id, mostly for a block that a
+// current authority votes for in this round (so that they would tip the
+// tallies if they were counted).
+func c21AddFormerVotes(t *rapid.T, tree *vTree, c *c21Case, count int) {
+	if len(c.former) == 0 {
+		return
+	}
+	sub := tree.subtree(c.head)
+	for i := 0; i < count; i++ {
+		stage := prevote
+		if rapid.Bool().Draw(t, "formerStage") {
+			stage = precommit
+		}
+		key := c.former[rapid.IntRange(0, len(c.former)-1).Draw(t, "formerSigner")]
+		v := tree.vote(sub[rapid.IntRange(0, len(sub)-1).Draw(t, "formerBlk")])
+		if len(c.msgs) > 0 && rapid.IntRange(0, 3).Draw(t, "formerOnVotedBlock") > 0 {
+			v = c.msgs[rapid.IntRange(0, len(c.msgs)-1).Draw(t, "formerLike")].vote
+		}
+		m := c21Valid(c, tree, "formerAuth", key, stage, v)
+		pos := rapid.IntRange(0, len(c.msgs)).Draw(t, "formerPos")
+		c.msgs = append(c.msgs[:pos], append([]c21Msg{m}, c.msgs[pos:]...)...)
+	}
+}
+
+// c21NewSet draws the authority set that replaces cur (key numbers, the
+// service = key 0 stays a member): same keys under a new set id, a smaller
+// set, a larger set, an overlapping set, or a set of new keys only; pool =
+// keys of earlier sets that are not in cur (may be re-admitted), *fresh = next
+// unused key number. 2..7 members, order optionally permuted.
+func c21NewSet(t *rapid.T, cur, pool []int, fresh *int) (keys []int, mode string) {
+	var oth []int
+	for _, k := range cur {
+		if k != 0 {
+			oth = append(oth, k)
+		}
+	}
+	add := func(cnt int) {
+		for i := 0; i < cnt && len(keys) < 7; i++ {
+			if len(pool) > 0 && rapid.IntRange(0, 3).Draw(t, "readmit") == 0 {
+				j := rapid.IntRange(0, len(pool)-1).Draw(t, "readmitKey")
+				keys = append(keys, pool[j])
+				pool = append(append([]int{}, pool[:j]...), pool[j+1:]...)
+				continue
+			}
+			keys = append(keys, *fresh)
+			*fresh++
+		}
+	}
+	keep := func(cnt int) {
+		p := oth
+		if len(p) > 1 {
+			p = rapid.Permutation(oth).Draw(t, "kept")
+		}
+		kept := append([]int{}, p[:cnt]...)
+		sort.Ints(kept)
+		keys = append(keys, kept...)
+	}
+	mode = rapid.SampledFrom([]string{"same", "smaller", "smaller", "larger", "larger", "overlapping", "overlapping", "overlapping", "disjoint", "disjoint"}).Draw(t, "setMode")
+	if mode == "smaller" && len(oth) < 2 {
+		mode = "overlapping"
+	}
+	if mode == "larger" && len(cur) >= 7 {
+		mode = "overlapping"
+	}
+	keys = []int{0}
+	switch mode {
+	case "same":
+		keys = append(keys, oth...)
+	case "smaller":
+		keep(rapid.IntRange(1, len(oth)-1).Draw(t, "keep"))
+	case "larger":
+		keys = append(keys, oth...)
+		add(rapid.IntRange(1, 3).Draw(t, "added"))
+	case "overlapping":
+		cnt := 1
+		if len(oth) >= 2 {
+			cnt = rapid.IntRange(1, len(oth)-1).Draw(t, "keep")
+		}
+		keep(cnt)
+		add(rapid.IntRange(1, 3).Draw(t, "added"))
+	case "disjoint":
+		add(rapid.IntRange(1, 6).Draw(t, "added"))
+	}
+	if len(keys) > 2 && rapid.Bool().Draw(t, "permuteSet") {
+		keys = rapid.Permutation(keys).Draw(t, "setOrder")
+	}
+	return keys, mode
+}
+
+func c21Sign(x int) int {
+	switch {
+	case x < 0:
+		return -1
+	case x > 0:
+		return 1
+	}
+	return 0
+}
+
+func c21Contains(list []int, x int) bool {
+	for _, v := range list {
+		if v == x {
+			return true
+		}
+	}
+	return false
+}
+
+// c21Minus returns the members of a that are not in b.
+func c21Minus(a, b []int) []int {
+	var out []int
+	for _, x := range a {
+		in := false
+		for _, y := range b {
+			if x == y {
+				in = true
+			}
+		}
+		if !in {
+			out = append(out, x)
+		}
+	}
+	return out
 }
 
 func indexOf(list []int, x int) int {
@@ -897,12 +1085,54 @@ func TestC21MultiRound(t *testing.T) {
 		var prevMsgs []c21Msg
 		everEquiv := map[int]bool{}
 		earlierEquivocator, laterSupermajority, oldEquivocatorVotesLater := false, false, false
+		// authority set history of this Service: current key numbers (nil = the
+		// initial 0..n-1), current set id, keys of earlier sets not in the current
+		// one, next unused key number
+		var curKeys, formerKeys, newcomers []int
+		initial := make([]int, n)
+		for i := range initial {
+			initial[i] = i
+		}
+		setID := c0.setID
+		fresh := 10
+		votesBeforeChange, changed, changedVoteClasses := 0, false, 0
+		delivered := 0
 		for k := 0; k < rounds; k++ {
-			rc := &c21Case{n: n, parent: tree.parent, setID: c0.setID, pendingAt: -1, ownPrevote: -1}
+			newSetRound := false
+			if k > 0 && rapid.IntRange(0, 3).Draw(t, "setChange") == 0 {
+				// an authority set change becomes visible in the grandpa state between two
+				// rounds; the next initiateRound applies it (updateAuthorities): new set
+				// id, round numbering restarts at 1, the finalised head stays
+				cur := curKeys
+				if cur == nil {
+					cur = initial
+				}
+				next, mode := c21NewSet(t, cur, formerKeys, &fresh)
+				formerKeys = append(c21Minus(formerKeys, next), c21Minus(cur, next)...)
+				newcomers = c21Minus(next, cur)
+				sort.Ints(formerKeys)
+				curKeys = next
+				setID++
+				env.gs.changeSet(setID, vVoters(curKeys))
+				newSetRound = true
+				if !changed {
+					votesBeforeChange = delivered
+				}
+				changed = true
+				fmt.Fprintf(&descr, "(set change -> set %d keys %v) ", setID, curKeys)
+				labels = append(labels, "set-change", "set-change:"+mode, fmt.Sprintf("set-change-before-r%d", k+1), "set-change:size"+[]string{"-down", "-equal", "-up"}[c21Sign(len(next)-len(cur))+1])
+			}
+			rc := &c21Case{n: n, parent: tree.parent, setID: setID, pendingAt: -1, ownPrevote: -1}
+			if curKeys != nil {
+				rc.keys, rc.former, rc.n = curKeys, formerKeys, len(curKeys)
+			}
 			env.bs.mu.Lock()
 			rc.head, rc.headRound = env.bs.finalHead, env.bs.highRound
 			env.bs.mu.Unlock()
-			r := rc.headRound + 1
+			if newSetRound {
+				rc.round = 1
+			}
+			r := rc.r()
 			tight := false
 			if k == 0 {
 				tight = rapid.IntRange(0, 4).Draw(t, "tightFirst") == 0
@@ -911,7 +1141,7 @@ func TestC21MultiRound(t *testing.T) {
 			}
 			if tight {
 				kpv, kpc := c21GenTight(t, tree, rc, prevPV, prevPC, prevMsgs)
-				need := 2*n/3 + 1
+				need := 2*rc.n/3 + 1
 				labels = append(labels, fmt.Sprintf("tight-r%d-pv=need%+d", k+1, kpv-need), fmt.Sprintf("tight-r%d-pc=need%+d", k+1, kpc-need))
 			} else {
 				c21GenRound(t, tree, rc)
@@ -923,6 +1153,9 @@ func TestC21MultiRound(t *testing.T) {
 				neq = 1
 			}
 			c21AddEquivocations(t, tree, rc, neq)
+			if len(rc.former) > 0 {
+				c21AddFormerVotes(t, tree, rc, rapid.IntRange(0, 3).Draw(t, "formerVotes"))
+			}
 			fmt.Fprintf(&descr, "[round %d] %s ", r, c21Describe(rc, tree))
 			res, err := c21RunRound(env, tree, rc)
 			if err != nil {
@@ -930,6 +1163,35 @@ func TestC21MultiRound(t *testing.T) {
 			}
 			if res.violation != "" {
 				t.Fatalf("round %d (%d. of the case): %s\ncase: %s", r, k+1, res.violation, descr.String())
+			}
+			delivered += len(rc.msgs)
+			if changed {
+				// who voted (correctly signed for this round and set) after the change
+				classes := map[string]bool{}
+				for _, m := range rc.msgs {
+					if m.round != r || m.setID != setID || m.kind == "garbageSig" || strings.HasPrefix(m.kind, "sig") {
+						continue
+					}
+					switch {
+					case c21Contains(rc.former, m.key):
+						classes["former-authority-vote"] = true
+					case c21Contains(newcomers, m.key):
+						classes["new-authority-vote"] = true
+					case rc.isAuth(m.key):
+						classes["continuing-authority-vote"] = true
+					}
+				}
+				for cl := range classes {
+					labels = append(labels, "after-change:"+cl)
+					if cl != "continuing-authority-vote" {
+						changedVoteClasses++
+					}
+				}
+				for _, l := range res.labels {
+					if l == "finalised" || l == "prevote-supermajority" {
+						labels = append(labels, "after-change:"+l)
+					}
+				}
 			}
 			if k > 0 && len(everEquiv) > 0 {
 				earlierEquivocator = true
@@ -974,7 +1236,19 @@ func TestC21MultiRound(t *testing.T) {
 		if oldEquivocatorVotesLater {
 			labels = append(labels, "earlier-equivocator-votes-in-later-round")
 		}
-		kit.Case(descr.String(), earlierEquivocator && laterSupermajority, labels...)
+		setChangeExercised := changed && votesBeforeChange > 0 && changedVoteClasses > 0
+		if setChangeExercised {
+			labels = append(labels, "set-change-exercised")
+		}
+		seenLabel := map[string]bool{}
+		uniq := labels[:0]
+		for _, l := range labels {
+			if !seenLabel[l] {
+				seenLabel[l] = true
+				uniq = append(uniq, l)
+			}
+		}
+		kit.Case(descr.String(), (earlierEquivocator && laterSupermajority) || setChangeExercised, uniq...)
 	})
 }
 
@@ -1049,5 +1323,93 @@ func TestC21MultiRoundRegressions(t *testing.T) {
 				t.Fatalf("%s: harness: %v", name, err)
 			}
 		}
+	}
+}
+
+// TestC21SetChangeRegressions: deterministic histories on ONE Service across an
+// authority set change (grandpa state publishes set id+1, the next
+// initiateRound applies it through updateAuthorities). Votes are validated
+// under the old set first; under the new set correctly signed votes (new set
+// id, round 1) of FORMER authorities must be rejected and never counted, votes
+// of NEW authorities must be accepted, thresholds are those of the new set.
+func TestC21SetChangeRegressions(t *testing.T) {
+	defer kit.Flush()
+	// chain genesis <- b1 <- b2, fork b3 (child of b1)
+	parent := []int{-1, 0, 1, 1}
+	tree := newVTree(parent)
+	type scenario struct {
+		newKeys []int
+		r2      func(c *c21Case)
+		// expectations on top of the generic oracle
+		wantFinalised int // block that must NOT be exceeded: -1 = nothing may be finalised, -2 = unconstrained
+	}
+	vote2 := func(c *c21Case, kind string, key int) {
+		c.msgs = append(c.msgs, c21Valid(c, tree, kind, key, prevote, tree.vote(2)), c21Valid(c, tree, kind, key, precommit, tree.vote(2)))
+	}
+	scenarios := map[string]scenario{
+		// all other authorities replaced: the two former authorities vote b2 in both stages, only the service is genuine (1 of 3)
+		"disjoint-former-authorities-vote": {newKeys: []int{0, 10, 11}, wantFinalised: -1, r2: func(c *c21Case) {
+			c.ownPrevote, c.ownPrecommit = 2, true
+			vote2(c, "formerAuth", 1)
+			vote2(c, "formerAuth", 2)
+		}},
+		// one authority replaced: the newcomer's votes must be accepted (3 of 3 with them), the former one's rejected
+		"overlapping-new-authority-votes": {newKeys: []int{10, 0, 1}, wantFinalised: -2, r2: func(c *c21Case) {
+			c.ownPrevote, c.ownPrecommit = 2, true
+			vote2(c, "formerAuth", 2)
+			vote2(c, "valid", 10)
+			vote2(c, "valid", 1)
+		}},
+		// smaller set {0,1}: need 2 of 2; former authority 2 and the service are not enough
+		"smaller-set-threshold": {newKeys: []int{0, 1}, wantFinalised: -1, r2: func(c *c21Case) {
+			c.ownPrevote, c.ownPrecommit = 2, true
+			vote2(c, "formerAuth", 2)
+		}},
+		// larger set {0,1,2,10,11}: need 4 of 5; the newcomers' prevotes (b3) make b1 the GHOST (5 of 5), the three
+		// precommits of the old authorities (own b1, b2, b2) are not enough to finalise
+		"larger-set-threshold": {newKeys: []int{0, 1, 2, 10, 11}, wantFinalised: -1, r2: func(c *c21Case) {
+			c.ownPrevote, c.ownPrecommit = 2, true
+			vote2(c, "valid", 1)
+			vote2(c, "valid", 2)
+			c.msgs = append(c.msgs, c21Valid(c, tree, "valid", 10, prevote, tree.vote(3)), c21Valid(c, tree, "valid", 11, prevote, tree.vote(3)))
+		}},
+	}
+	for name, sc := range scenarios {
+		c0 := &c21Case{n: 3, parent: parent, best: 2, pendingAt: -1, ownPrevote: -1}
+		env, _, err := c21Setup(c0)
+		if err != nil {
+			t.Fatalf("%s: harness: %v", name, err)
+		}
+		// round 1 of set 0: authorities 1 and 2 vote (validated under the old set), nothing is finalised by the service
+		r1 := &c21Case{n: 3, parent: parent, best: 2, pendingAt: -1, ownPrevote: -1}
+		r1.msgs = append(r1.msgs, c21Valid(r1, tree, "valid", 1, prevote, tree.vote(2)), c21Valid(r1, tree, "valid", 2, prevote, tree.vote(3)),
+			c21Valid(r1, tree, "valid", 2, precommit, tree.vote(1)))
+		res, err := c21RunRound(env, tree, r1)
+		if err != nil {
+			t.Fatalf("%s: harness: %v", name, err)
+		}
+		if res.violation != "" {
+			t.Errorf("%s: round 1 of set 0: %s\ncase: %s", name, res.violation, c21Describe(r1, tree))
+			continue
+		}
+		if err := c21CloseRound(env, tree, 1, 0, 0); err != nil {
+			t.Fatalf("%s: harness: %v", name, err)
+		}
+		env.gs.changeSet(1, vVoters(sc.newKeys))
+		r2 := &c21Case{n: len(sc.newKeys), keys: sc.newKeys, former: c21Minus([]int{0, 1, 2}, sc.newKeys), round: 1, setID: 1,
+			parent: parent, best: 2, pendingAt: -1, ownPrevote: -1, head: env.bs.finalHead, headRound: env.bs.highRound}
+		sc.r2(r2)
+		res, err = c21RunRound(env, tree, r2)
+		if err != nil {
+			t.Fatalf("%s: harness: %v", name, err)
+		}
+		if res.violation != "" {
+			t.Errorf("%s: round 1 of set 1: %s\ncase: %s", name, res.violation, c21Describe(r2, tree))
+			continue
+		}
+		if sc.wantFinalised == -1 && res.finalised >= 0 {
+			t.Errorf("%s: finalised b%d although the current authorities' precommits are not enough", name, res.finalised)
+		}
+		t.Logf("%s: labels %v finalised b%d", name, res.labels, res.finalised)
 	}
 }
